@@ -4,14 +4,15 @@ import sys, os, shutil, json, re
 ID, X, needs, ran, caught = sys.argv[1:6]
 missed = sys.argv[6] if len(sys.argv) > 6 else ''
 src = f'/tmp/wt-{ID}/SEEDED'
-dst = f'/verif/seeded/{ID}-{X}'
+OUT = os.environ.get('OUT', X)
+dst = f'/verif/seeded/{ID}-{OUT}'
 os.makedirs(dst, exist_ok=True)
 shutil.copy(f'{src}/{X}.diff', f'{dst}/patch.diff')
 shutil.copy(f'{src}/{X}.demo.sh', f'{dst}/demo.sh')
 notes = open(f'{src}/notes.md').read()
 open(f'{dst}/notes.md', 'w').write(notes)
 meta = {
- 'id': f'{ID}-{X}', 'breaks_property': ID, 'origin': 'written by a sub-agent that saw only the property text and a scratch worktree',
+ 'id': f'{ID}-{OUT}', 'breaks_property': ID, 'origin': 'written by a sub-agent that saw only the property text and a scratch worktree',
  'needs_to_manifest': needs, 'confirmed': ran,
  'caught_by': [c for c in caught.split(',') if c and c != 'none'],
  'missed_by_at_first': [c for c in missed.split(',') if c],
